@@ -1,5 +1,5 @@
 //! Differential harness for the PDU codec: cfdp_core::pdu::{PDU, UserOperation} and
-//! cfdp_core::daemon::Report.  Text protocol: see FORMAT.md of component `codec`.
+//! cfdp_core::daemon::Report.  Text protocol: harness/CODEC_FORMAT.md (shared with ocaml/drv_codec.ml).
 //! ops:  E <PDU> | D <hex> | EU <USEROP> | DU <hex> | ER <REPORT> | DR <hex>
 #![allow(clippy::too_many_arguments)]
 use crate::rng::Rng;
